@@ -125,6 +125,22 @@ def decide(prop, tier, seed):
         if r["status"] != "ok":
             undecided.append((r["unit"], r["reason"]))
     by_name = {o["name"]: o for o in obs}
+    # Extraction drift: a shim rewrite that applied to a function on the unchanged tree and applies less often now
+    # leaves std calls without a specification in the Verus input; a failed proof of that function is then
+    # undecided, not a violation (Kani units run the real std code and are not affected)
+    drift = {}
+    for r in results:
+        if r["backend"] != "verus":
+            continue
+        base_rw = baseline.get("_rw", {}).get(r["unit"], {})
+        for item, counts in (r.get("rw_counts") or {}).items():
+            for pat, c in base_rw.get(item, {}).items():
+                if counts.get(pat, 0) < c:
+                    drift.setdefault((r["unit"], item), []).append(pat)
+    for o in obs:
+        if o["backend"] == "verus" and o["status"] == "failed" and (o["unit"], o["fn"]) in drift:
+            o["status"] = "undecided"
+            undecided.append((o["unit"], "extraction drift in %s: rewrite /%s/ matched on the unchanged tree but not now; failed obligation %s is not decided by this unit" % (o["fn"], drift[(o["unit"], o["fn"])][0][:60], o["name"])))
     violations = []
     known_lines = []
     for o in obs:
@@ -300,6 +316,11 @@ def write_baseline():
     for p in base:
         if not p.startswith("_"):
             base[p] = sorted(base[p])
+    rw = base.get("_rw", {})
+    for r in results:
+        if r.get("rw_counts") is not None:
+            rw[r["unit"]] = r["rw_counts"]
+    base["_rw"] = rw
     base["_unit_of"] = dict(sorted(unit_of.items()))
     base["_thorough_only"] = sorted(tonly)
     json.dump(base, open(BASELINE, "w"), indent=1, sort_keys=True)
